@@ -79,9 +79,13 @@ fn registry() -> Vec<PropDef> {
         prop!("C05", c05),
         prop!("C06", c06),
         prop!("C08", c08),
+        prop!("C09", c09),
+        prop!("C10", c10),
         prop_bfs!("C11", c11),
         prop_bfs!("C12", c12),
+        prop!("C14", c14),
         prop_bfs!("C15", c15),
+        prop!("C13", c13),
         prop!("C16", c16),
         prop!("C17", c17),
     ]
